@@ -92,14 +92,15 @@ def eval_clause(src, cmod, env):
     return eval(compile(src, '<contract>', 'eval'), g, dict(env))
 
 
-def check_pure_call(contract, cmod, fn, params, args, obligation=None):
+def check_pure_call(contract, cmod, fn, params, args, obligation=None, nreal=None):
     """Call the real pure function and evaluate every clause (or only `obligation`).
     Returns a list of failure dicts."""
     env = dict(zip(params, args))
     saved = copy.deepcopy(env)
     if not eval_clause(contract.requires, cmod, env):
         return None
-    kind, val = quiet_call(fn, *copy.deepcopy(args))
+    nreal = len(args) if nreal is None else nreal
+    kind, val = quiet_call(fn, *copy.deepcopy(args[:nreal]))
     fails = []
     declared = set(contract.raises) | set(contract.may_raise)
     if kind == 'ret':
